@@ -801,6 +801,22 @@ pub fn run_shard(ctx: &mut Ctx) {
     }
 }
 
+pub fn replay_file_name(v: &Value) -> Option<Viol> {
+    use raft_log::{ChunkId, Config, RaftLog};
+    let x: u64 = v["offset"].as_str()?.parse().ok()?;
+    let dir = util::fresh_dir("names");
+    let cfg = Config::new(&dir);
+    let path = cfg.chunk_path(ChunkId(x));
+    let want = format!("{}/{}", dir, refcodec::chunk_file_name(x));
+    let _ = std::fs::write(&path, b"");
+    let ids = RaftLog::<store::V>::load_chunk_ids(&cfg).ok()?;
+    util::remove_dir(&dir);
+    if path != want || ids.iter().map(|c| c.0).collect::<Vec<_>>() != vec![x] {
+        return Some(Viol { prop: "C11".into(), sig: "C11:file_name_round_trip".into(), text: format!("offset {}: path {:?} (reference {:?}), loaded ids {:?}", x, path, want, ids), replay: v.clone() });
+    }
+    None
+}
+
 pub fn replay(v: &Value) -> Option<Viol> {
     let case = HistCase::from_json(&v["case"])?;
     let plan = plan_for(&case.plan);
